@@ -473,6 +473,70 @@ func (n *node) fileSave(kf string, epoch int, path string, do func() error) erro
 	return nil
 }
 
+// filesAheadHistory is run only when the real DKG showed that executeAndFinishDKG hands the output
+// over BEFORE it commits the epoch to dkg.db. It plays that order on the real stores - staged
+// Executing, the beacon process's storeDKGOutput, and only then SaveFinished - for a first DKG and
+// for a resharing, and examines the crash point in between: "output delivered and stored by the
+// beacon process, SaveFinished not yet committed" (the key files are AHEAD of the database; the
+// listed finding is the opposite, the database ahead of the files).
+func filesAheadHistory(rep *emit.Report, w *world, root string, add func(l, d string, nontrivial bool)) error {
+	n, err := newNode(w, root)
+	if err != nil {
+		return err
+	}
+	defer n.close()
+	ctx := context.Background()
+	var tx []int64
+	n.snap("fresh", "after", "")
+	gen := chain.GenesisBeacon(w.groups[1].GenesisSeed)
+	if err := n.raw.Put(ctx, gen); err != nil {
+		return err
+	}
+	n.ops = append(n.ops, fmt.Sprintf("PBeaconTx (mkB 0 %d 0)", w.sigID(gen.Signature)))
+	var points []*snapshot
+	for e := 1; e <= 2; e++ {
+		if err := n.saveCurrent(w.state(uint32(e), dkg.Executing, e-1, e-1), drec{e, int(dkg.Executing), e - 1, e - 1}, &tx); err != nil {
+			return err
+		}
+		if err := n.bp.VerifCrashStoreDKGOutput(ctx, w.groups[e], w.shares[e]); err != nil {
+			return err
+		}
+		n.hadPair = true
+		s := n.snaps[len(n.snaps)-1]
+		s.name = fmt.Sprintf("epoch-%d/output-stored-by-the-beacon-process,SaveFinished-not-yet-committed", e)
+		points = append(points, s)
+		if err := n.saveFinished(w.state(uint32(e), dkg.Complete, e, e), drec{e, int(dkg.Complete), e, e}, &tx); err != nil {
+			return err
+		}
+	}
+	for _, s := range points {
+		o, err := w.reload(s, root)
+		if err != nil {
+			return err
+		}
+		out, err := w.daemonRestart(s, root)
+		if err != nil {
+			return err
+		}
+		add(fmt.Sprintf("Snap %s %s %s", emit.List(s.run), s.cp, o.coqTail()), w.sch.Name+" "+s.name, true)
+		rep.Count("files-ahead/" + out.Class)
+		finEpoch := 0
+		if o.fin != nil {
+			finEpoch = o.fin.epoch
+		}
+		if o.group.class == "ok" && o.group.epoch > finEpoch {
+			what := fmt.Sprintf("process died at %q: group file and share are epoch %d, dkg.db records epoch %d as completed (staged: %s); a real daemon started there: %s", s.name, o.group.epoch, finEpoch, optDrec(o.cur), out.Class)
+			if o.fin == nil {
+				what += " - with no completed record at all the start-up takes the v1 MIGRATION path (group file without DKG record) and writes an epoch-1 record of its own"
+			}
+			rep.Fail("C13-key-files-ahead-of-dkg-database", what,
+				map[string]interface{}{"scheme": w.sch.Name, "crash_point": s.name, "dkg_db_finished": optDrec(o.fin), "dkg_db_current": optDrec(o.cur),
+					"group_file": o.group, "share_file": o.share, "restart_decision": o.restart, "real_daemon_LoadBeaconFromStore": out})
+		}
+	}
+	return nil
+}
+
 // joinerSnapshot builds, with the real DKG store, the folder of a node that was invited into a
 // resharing (epoch 2), recorded Joined, and died: key pair, dkg.db with a staged record only.
 func (n *node) joinerSnapshot() error {
@@ -1224,6 +1288,10 @@ func runScheme(rep *emit.Report, sch *crypto.Scheme, seed int64, root, tier stri
 	add(fmt.Sprintf("FinishOrder %s", emit.Bool(dbFirst)), sch.Name+" executeAndFinishDKG: SaveFinished before the hand-over on completedDKGs", true)
 	rep.Count("finish-order/real-dkg")
 	if !dbFirst {
+		// the crash states that order makes reachable, built with the real stores and reloaded
+		if err := filesAheadHistory(rep, w, filepath.Join(root, "alt"), add); err != nil {
+			return nil, nil, err
+		}
 		rep.Fail("C13-dkg-result-handed-over-before-db-commit", "executeAndFinishDKG handed the new group/share to the beacon process before SaveFinished committed it: a crash in between leaves files of an epoch the database does not know",
 			map[string]interface{}{"scheme": sch.Name})
 	}
@@ -1276,7 +1344,7 @@ func monitor(rep *emit.Report, scheme string, s *snapshot, o obs, _ map[string][
 	switch {
 	case o.fin == nil:
 		if o.gPresent || o.sPresent || o.restart != "RFresh" {
-			rep.Fail("C13-files-without-dkg-record", "key files present although no DKG completed", in)
+			rep.Fail("C13-key-files-ahead-of-dkg-database", fmt.Sprintf("group file / share present (group %s/%d, share %s/%d) although dkg.db records no completed DKG: restart = %s", o.group.class, o.group.epoch, o.share.class, o.share.epoch, o.restart), in)
 		}
 	case s.hadPair && !left && (!o.gPresent || !o.sPresent):
 		// a key file of an earlier epoch was REMOVED (not merely being rewritten in place) although
@@ -1326,7 +1394,7 @@ func monitor(rep *emit.Report, scheme string, s *snapshot, o obs, _ map[string][
 		if o.group.epoch < o.fin.epoch {
 			rep.Fail("C13-db-ahead-of-files", fmt.Sprintf("dkg.db records epoch %d as completed, group file and share are epoch %d; restart = %s", o.fin.epoch, o.group.epoch, o.restart), in)
 		} else {
-			rep.Fail("C13-files-ahead-of-db", fmt.Sprintf("group file and share are epoch %d but dkg.db records epoch %d", o.group.epoch, o.fin.epoch), in)
+			rep.Fail("C13-key-files-ahead-of-dkg-database", fmt.Sprintf("group file and share are epoch %d but dkg.db records epoch %d as the completed one; restart = %s", o.group.epoch, o.fin.epoch, o.restart), in)
 		}
 	case !running:
 		rep.Fail("C13-consistent-state-does-not-restart", "files and database agree but the restart fails: "+o.restart, in)
